@@ -813,7 +813,7 @@ func jpWorkload(c Case, which string, res *CaseResult) {
 			pl.Pre[a] = []h.Binding{{AspectID: id, Loops: 0}}
 			pl.Post[a] = []h.Binding{{AspectID: id, Loops: 0}}
 			kind := []byte{h.CALL, h.CALL, h.STATICCALL, h.DELEGATECALL, h.CALLCODE}[(int(c.Seed>>9)+i)%5]
-			top.PushU(32).PushU(0x200).PushU(uint64((int(c.Seed>>5)+i*37)%200)).PushU(0)
+			top.PushU(32).PushU(0x200).PushU(uint64((int(c.Seed>>5) + i*37) % 200)).PushU(0)
 			if kind == h.CALL || kind == h.CALLCODE {
 				top.PushU(0)
 			}
